@@ -6,7 +6,7 @@ import statsmodels.formula.api as smf
 import gen
 from common import rq, fx, unfx, enc_list, close
 
-REQUIRED = ['iptw_saturated', 'iptw_measures_saturated', 'gformula_saturated', 'gformula_generated', 'iptw_final_weight_generated', 'aipw_saturated']
+REQUIRED = ['iptw_saturated', 'iptw_measures_saturated', 'gformula_saturated', 'gformula_generated', 'iptw_final_weight_generated', 'aipw_calc_generated', 'aipw_saturated']
 RULE = ('random data sets with 1-3 categorical covariates (arity 2-4, <= 12 strata), positivity by construction, '
         'outcome binary / normal / count, with and without integer frequency weights; configuration cells enumerated '
         'per data set: IPTW stabilized x standardize (6), g-formula standardize (3), AIPTW, TMLE; every nuisance model '
@@ -251,8 +251,49 @@ def one_dataset(chk, drv, rng, ytype, wcol, missing, which):
             run_tmle(chk, drv, df, covs, ytype, cf, dsid, rec, cb)
 
 
+def aipw_calculator_direct(chk, drv, rng, n_cases):
+    """gate K for the definition generated from the text of `aipw_calculator`: direct calls on random vectors, with
+    missing (NaN) outcomes, with and without weights, difference and ratio (estimate and variance)"""
+    from zepid.causal.utils import aipw_calculator
+    import pandas as pd
+    for _ in range(n_cases):
+        n = int(rng.integers(8, 60))
+        a = rng.integers(0, 2, size=n).astype(float)
+        a[:2] = [0.0, 1.0]
+        y = np.round(rng.uniform(0, 1, size=n), 3) if rng.uniform() < 0.5 else rng.integers(0, 2, size=n).astype(float)
+        miss = rng.uniform(size=n) < float(rng.choice([0.0, 0.0, 0.2, 0.4]))
+        miss[:4] = False
+        y = np.where(miss, np.nan, y)
+        q1, q0 = rng.uniform(0.05, 0.95, size=n), rng.uniform(0.05, 0.95, size=n)
+        g1 = rng.uniform(0.1, 0.9, size=n)
+        g0 = 1 - g1 if rng.uniform() < 0.5 else rng.uniform(0.1, 0.9, size=n)   # AIPTW bounds g1 and g0 separately
+        hasw = bool(rng.uniform() < 0.5)
+        w = rng.integers(1, 5, size=n).astype(float) if hasw else None
+        diff = bool(rng.uniform() < 0.5)
+        case = {'fn': 'aipw_calculator', 'n': n, 'difference': diff, 'weights': hasw, 'missing': int(miss.sum()),
+                'a': a.tolist(), 'y': [None if np.isnan(v) else float(v) for v in y], 'q1': q1.tolist(), 'q0': q0.tolist(),
+                'g1': g1.tolist(), 'g0': g0.tolist(), 'w': None if w is None else w.tolist()}
+        chk.case(case, ('aipw_calculator', hash(str(case))) if miss.any() or hasw else None)
+        chk.count('aipw_calculator/%s/%s/%s' % ('diff' if diff else 'ratio', 'w' if hasw else 'nw', 'nan' if miss.any() else 'complete'))
+        est, var = aipw_calculator(y=y, a=a, py_a=q1, py_n=q0, pa1=g1, pa0=g0, difference=diff,
+                                   weights=None if w is None else pd.Series(w), splits=None, continuous=True)
+        if drv is None:
+            continue
+        rep, _ = drv.ask('aipwcalc', c='f', difference=int(diff), hasw=int(hasw), nan=fx(float('nan')),
+                         s=enc_list([0] * n, str), a=enc_list(a.astype(int), str),
+                         y=','.join('_' if np.isnan(v) else fx(v) for v in y),
+                         w=enc_list(np.ones(n) if w is None else w, fx), q1=enc_list(q1, fx), q0=enc_list(q0, fx),
+                         g1=enc_list(g1, fx), g0=enc_list(g0, fx))
+        ok = rep['status'] == 'ok' and close(unfx(rep['est']), est, rtol=1e-10, atol=1e-12) and \
+            close(unfx(rep['var']), var, rtol=1e-9, atol=1e-14)
+        chk.k(ok, 'aipw_calculator = definition generated from its source (estimate and variance, NaN outcomes skipped)',
+              dict(case, impl=[float(est), float(var)], model=rep))
+
+
+
 def run(chk, drv, rng, tier):
     reps = 5 if tier == "quick" else 40
+    aipw_calculator_direct(chk, drv, rng, 150 if tier == 'quick' else 2000)
     for _ in range(reps):
         for ytype in ('binary', 'normal', 'poisson'):
             for wcol in (None, 'w'):
